@@ -25,6 +25,20 @@ def formatString (T : Tbl) (X : List (Nat × PStr)) (hreg xreg : List RegEntry) 
     (arg : FormatterArg) (parent : Option PStr) (s : PStr) : Option PStr :=
   (formatterForName hreg xreg htmlDefaults isXml arg).map fun e => formatterSubstitute T X e parent s
 
+/-- `self.language = language or self.HTML` (formatter.py:119): `None` and the empty string mean HTML -/
+def formatterLanguage (arg : Option PStr) : PStr :=
+  match arg with
+  | none => [104, 116, 109, 108]
+  | some [] => [104, 116, 109, 108]
+  | some l => l
+
+/-- `Formatter(language, entity_substitution=fn, cdata_containing_tags=arg)` for an arbitrary `language` argument: the
+    XML defaults apply exactly when the language **equals** `"xml"` (`language == self.XML`, formatter.py:71 — a comparison
+    of values: any string with these code points, however it was produced) -/
+def mkFormatterLang (htmlDefaults : List PStr) (language : Option PStr) (fn : Nat) (cdataArg : Option (List PStr)) :
+    RegEntry :=
+  mkFormatter htmlDefaults (formatterLanguage language == [120, 109, 108]) fn cdataArg
+
 /-- an attribute value as `_format_tag` meets it -/
 inductive AttrVal where
   /-- `None`: rendered as the bare key -/
